@@ -29,6 +29,7 @@ META["claim"] += " " + 'Also: Basic credentials of 58+ bytes, redirects whose ho
 META["claim"] += " " + 'Round 3b: IPv6 literal targets against CIDR / literal / name no_proxy lists; WebSocketApp with an environment proxy and the exemption passed as run_forever option.'
 META["claim"] += " " + 'Round 4: credentials whose base64 form needs + and /; no_proxy entries with a slash that are no IPv4 block, before and after a valid block, for every prefix length.'
 META["claim"] += " " + 'Round 5: IPv4 targets in their other legal spellings (127.1, 2130706433, 0x7f.0.0.1, 0177.0.0.1 ...) against CIDR lists; REQUEST_METHOD / ALL_PROXY in the environment.'
+META["claim"] += " " + "Rounds 6-7: unescaped sub-delimiters in environment credentials, a shared empty no_proxy list; credentials with blanks at the ends; overlapping / nested / doubled blocks in one list; the SOCKS branch driven through a stand-in for python_socks (dedicated shard): proxy used exactly when the target is not exempt, type / remote-DNS flag / address / credentials / destination handed over as configured, TLS with the origin's name through the tunnel, upgrade request addressed to the origin."
 
 LABELS = ["a", "b", "ab", "ba"]
 
